@@ -17,7 +17,66 @@ Proof. unfold u53. change (- (53) + 1)%Z with (-53 + 1)%Z. rewrite bpow_plus. si
 Lemma u53_eq : u53 = / 9007199254740992.
 Proof. unfold u53, bpow. unfold Z.pow_pos; simpl. reflexivity. Qed.
 
-(* ---- rdpe_mul_d (rad, drad, (double) n): one rounding of the mantissa product, exact renormalisation *)
+(* ---- rdpe_mul_d (rad, drad, d) for a positive double d of moderate size: one rounding of the mantissa product, exact
+        renormalisation *)
+Lemma mul_d_gen : forall (d : b64) (r : rdpe),
+  is_finite d = true -> bpow radix2 (-64) <= B2R d <= bpow radix2 31 -> normalised r -> 0 <= rval r ->
+  (LONG_MIN + 3000 <= esp r <= LONG_MAX - 3000)%Z ->
+  let rad := rdpe_mul_d r d in
+  normalised rad /\ esp_mid (esp rad) /\ 0 <= rval rad /\
+  Rabs (rval rad - B2R d * rval r) <= u53 * (B2R d * rval r) /\
+  (esp rad = 0 \/ esp r - 1074 <= esp rad <= esp r + 1024)%Z.
+Proof.
+  intros nd r Fn Bn Nr Hr0 Her rad.
+  unfold rad, rdpe_mul_d.
+  pose proof (ffrexp_exp_bound nd Fn) as Bi.
+  unfold mul_ovf, mul_unf.
+  replace ((0 <=? esp r)%Z && (LONG_MAX - esp r <=? snd (ffrexp nd))%Z) with false
+    by (unfold LONG_MAX, LONG_MIN in *; lia).
+  replace ((esp r <=? 0)%Z && (snd (ffrexp nd) <=? LONG_MIN - esp r)%Z) with false
+    by (unfold LONG_MAX, LONG_MIN in *; lia).
+  set (m := B2R (mnt r)). set (e := esp r) in *. set (dn := B2R nd) in *.
+  assert (Fm := proj1 Nr).
+  assert (Pe := bpow_gt_0 radix2 e).
+  assert (P64 := bpow_gt_0 radix2 (-64)).
+  assert (Bm : m = 0 \/ / 2 <= m < 1).
+  { destruct Nr as [_ [[Z0 _]|B]]; fold m in Z0 || fold m in B. left; exact Z0.
+    assert (0 <= m). { unfold rval in Hr0. fold m e in Hr0. destruct (Rle_lt_dec 0 m); [assumption|]. exfalso. nra. }
+    rewrite Rabs_pos_eq in B by assumption. right; lra. }
+  set (f := fmul (mnt r) nd).
+  assert (Bmn : 0 <= m * dn <= bpow radix2 31) by (destruct Bm as [->|Bm]; split; nra).
+  assert (G31 : generic_format radix2 fexp64 (bpow radix2 31)) by (apply generic_format_bpow; vm_compute; discriminate).
+  assert (Hrnd : 0 <= rnd64 (m * dn) <= bpow radix2 31).
+  { split. apply round_ge_generic; try typeclasses eauto. apply generic_format_0. lra.
+    apply round_le_generic; try typeclasses eauto. assumption. lra. }
+  pose proof (Bmult_correct 53 1024 Hprec53 Hmax1024 mode_NE (mnt r) nd) as HB.
+  change (round_mode mode_NE) with ZnearestE in HB. fold m dn in HB.
+  rewrite Rlt_bool_true in HB.
+  2:{ rewrite Rabs_pos_eq by lra. apply Rle_lt_trans with (bpow radix2 31). lra. apply bpow_lt. lia. }
+  destruct HB as (Vf & Ff & _). rewrite Fm, Fn in Ff. simpl in Ff.
+  change (B2R f = rnd64 (m * dn)) in Vf. change (is_finite f = true) in Ff.
+  assert (Me : esp_mid e) by (unfold esp_mid, LONG_MIN, LONG_MAX in *; lia).
+  destruct (norm_of_mnt f e Ff Me) as (NP & VP & EP).
+  split; [exact NP|]. split.
+  { destruct EP as [->|EP]; [apply esp_mid_0|]. unfold esp_mid, LONG_MIN, LONG_MAX in *. lia. }
+  rewrite VP, Vf. split.
+  { apply Rmult_le_pos; lra. }
+  split; [|exact EP].
+  unfold rval. fold m e.
+  replace (rnd64 (m * dn) * bpow radix2 e - dn * (m * bpow radix2 e))
+    with ((rnd64 (m * dn) - m * dn) * bpow radix2 e) by ring.
+  rewrite Rabs_mult, (Rabs_pos_eq (bpow radix2 e)) by lra.
+  replace (u53 * (dn * (m * bpow radix2 e))) with (u53 * (m * dn) * bpow radix2 e) by ring.
+  apply Rmult_le_compat_r; [lra|].
+  destruct Bm as [M0|Bm].
+  - rewrite M0, Rmult_0_l, round_0 by typeclasses eauto. rewrite Rminus_0_r, Rabs_R0. lra.
+  - pose proof (relative_error_N_FLT radix2 (-1074) 53 ltac:(lia) (fun x => negb (Z.even x)) (m * dn)) as RE.
+    change (FLT_exp (-1074) 53) with fexp64 in RE. rewrite u53_half_ulp in RE.
+    rewrite (Rabs_pos_eq (m * dn)) in RE by lra. apply RE.
+    apply Rle_trans with (/ 2 * bpow radix2 (-64)); [|nra].
+    change (/ 2) with (bpow radix2 (-1)). rewrite <- bpow_plus. apply bpow_le. lia.
+Qed.
+
 Lemma mul_d_spec : forall (n : Z) (r : rdpe),
   (1 <= n < 2 ^ 31)%Z -> normalised r -> 0 <= rval r ->
   (LONG_MIN + 3000 <= esp r <= LONG_MAX - 3000)%Z ->
@@ -27,53 +86,12 @@ Lemma mul_d_spec : forall (n : Z) (r : rdpe),
 Proof.
   intros n r Hn Nr Hr0 Her rad.
   destruct (f_of_Z_correct n) as (Vn & Fn & _). { lia. }
-  unfold rad, rdpe_mul_d. set (nd := f_of_Z n) in *.
-  pose proof (ffrexp_exp_bound nd Fn) as Bi.
-  unfold mul_ovf, mul_unf.
-  replace ((0 <=? esp r)%Z && (LONG_MAX - esp r <=? snd (ffrexp nd))%Z) with false
-    by (unfold LONG_MAX, LONG_MIN in *; lia).
-  replace ((esp r <=? 0)%Z && (snd (ffrexp nd) <=? LONG_MIN - esp r)%Z) with false
-    by (unfold LONG_MAX, LONG_MIN in *; lia).
-  set (m := B2R (mnt r)). set (e := esp r) in *.
-  assert (Fm := proj1 Nr).
-  assert (Pe := bpow_gt_0 radix2 e).
-  assert (Bm : m = 0 \/ / 2 <= m < 1).
-  { destruct Nr as [_ [[Z0 _]|B]]; fold m in Z0 || fold m in B. left; exact Z0.
-    assert (0 <= m). { unfold rval in Hr0. fold m e in Hr0. destruct (Rle_lt_dec 0 m); [assumption|]. exfalso. nra. }
-    rewrite Rabs_pos_eq in B by assumption. right; lra. }
-  assert (Bn : 1 <= IZR n < bpow radix2 31).
-  { split. apply IZR_le; lia. change (bpow radix2 31) with (IZR (2 ^ 31)). apply IZR_lt; lia. }
-  set (f := fmul (mnt r) nd).
-  assert (Bmn : 0 <= m * IZR n <= bpow radix2 31) by (destruct Bm as [->|Bm]; split; nra).
-  assert (G31 : generic_format radix2 fexp64 (bpow radix2 31)) by (apply generic_format_bpow; vm_compute; discriminate).
-  assert (Hrnd : 0 <= rnd64 (m * IZR n) <= bpow radix2 31).
-  { split. apply round_ge_generic; try typeclasses eauto. apply generic_format_0. lra.
-    apply round_le_generic; try typeclasses eauto. assumption. lra. }
-  pose proof (Bmult_correct 53 1024 Hprec53 Hmax1024 mode_NE (mnt r) nd) as HB.
-  change (round_mode mode_NE) with ZnearestE in HB. rewrite Vn in HB. fold m in HB.
-  rewrite Rlt_bool_true in HB.
-  2:{ rewrite Rabs_pos_eq by lra. apply Rle_lt_trans with (bpow radix2 31). lra. apply bpow_lt. lia. }
-  destruct HB as (Vf & Ff & _). rewrite Fm, Fn in Ff. simpl in Ff.
-  change (B2R f = rnd64 (m * IZR n)) in Vf. change (is_finite f = true) in Ff.
-  assert (Me : esp_mid e) by (unfold esp_mid, LONG_MIN, LONG_MAX in *; lia).
-  destruct (norm_of_mnt f e Ff Me) as (NP & VP & EP).
-  split; [exact NP|]. split.
-  { destruct EP as [->|EP]; [apply esp_mid_0|]. unfold esp_mid, LONG_MIN, LONG_MAX in *. lia. }
-  rewrite VP, Vf. split.
-  { apply Rmult_le_pos; lra. }
-  unfold rval. fold m e.
-  replace (rnd64 (m * IZR n) * bpow radix2 e - IZR n * (m * bpow radix2 e))
-    with ((rnd64 (m * IZR n) - m * IZR n) * bpow radix2 e) by ring.
-  rewrite Rabs_mult, (Rabs_pos_eq (bpow radix2 e)) by lra.
-  replace (u53 * (IZR n * (m * bpow radix2 e))) with (u53 * (m * IZR n) * bpow radix2 e) by ring.
-  apply Rmult_le_compat_r; [lra|].
-  destruct Bm as [M0|Bm].
-  - rewrite M0, Rmult_0_l, round_0 by typeclasses eauto. rewrite Rminus_0_r, Rabs_R0. lra.
-  - pose proof (relative_error_N_FLT radix2 (-1074) 53 ltac:(lia) (fun x => negb (Z.even x)) (m * IZR n)) as RE.
-    change (FLT_exp (-1074) 53) with fexp64 in RE. rewrite u53_half_ulp in RE.
-    rewrite (Rabs_pos_eq (m * IZR n)) in RE by lra. apply RE.
-    apply Rle_trans with (/ 2); [|nra].
-    change (/ 2) with (bpow radix2 (-1)). apply bpow_le. lia.
+  assert (Bn : bpow radix2 (-64) <= B2R (f_of_Z n) <= bpow radix2 31).
+  { rewrite Vn. split.
+    - apply Rle_trans with 1; [change 1 with (bpow radix2 0); apply bpow_le; lia|apply IZR_le; lia].
+    - change (bpow radix2 31) with (IZR (2 ^ 31)). apply IZR_le; lia. }
+  destruct (mul_d_gen (f_of_Z n) r Fn Bn Nr Hr0 Her) as (A & B & C & D & _). rewrite Vn in D.
+  split; [exact A|split; [exact B|split; [exact C|exact D]]].
 Qed.
 
 (* ---- exponent of a normalised DPE from the size of its value *)
@@ -106,7 +124,8 @@ Qed.
 
 Lemma cmod_spec : forall z, cnormalised z -> csmall z ->
   let ab := cdpe_mod z in
-  normalised ab /\ esp_mid (esp ab) /\ 0 <= zmod z /\ 0 <= rval ab /\ Rabs (rval ab - zmod z) <= 4 * u53 * zmod z.
+  normalised ab /\ esp_mid (esp ab) /\ 0 <= zmod z /\ 0 <= rval ab /\ Rabs (rval ab - zmod z) <= 4 * u53 * zmod z /\
+  (Z.abs (esp ab) <= 2 ^ 60 + 3)%Z.
 Proof.
   intros z Nz Sz ab. destruct (cmod_rel z Nz Sz) as [N Rl]. cbv zeta in Rl. fold ab in N, Rl. fold (zmod z) in Rl.
   set (a := rval (cre z)) in *. set (b := rval (cim z)) in *.
@@ -115,7 +134,8 @@ Proof.
   pose proof u53_pos as U. pose proof u53_small as U2.
   assert (A0 : 0 <= rval ab).
   { apply Rabs_le_inv in Rl. assert (4 * u53 * zmod z <= / 2 * zmod z) by (apply Rmult_le_compat_r; lra). lra. }
-  split; [exact N|]. split; [|split; [exact Z0|split; [exact A0|exact Rl]]].
+  assert (Goal2 : esp_mid (esp ab) /\ (Z.abs (esp ab) <= 2 ^ 60 + 3)%Z);
+    [|destruct Goal2 as [G1 G2]; split; [exact N|split; [exact G1|split; [exact Z0|split; [exact A0|split; [exact Rl|exact G2]]]]]].
   destruct Nz as [Na Nb]. destruct Sz as [Sa Sb].
   destruct (rval_small _ Na Sa) as [Ua La]. destruct (rval_small _ Nb Sb) as [Ub Lb]. fold a in Ua, La. fold b in Ub, Lb.
   (* |a|, |b| <= Z <= |a| + |b| *)
@@ -148,7 +168,7 @@ Proof.
     - apply Rabs_le_inv in Rl.
       assert (4 * u53 * zmod z <= 1 * zmod z) by (apply Rmult_le_compat_r; lra).
       replace (2 ^ 60 + 2)%Z with (2 + 2 ^ 60)%Z by lia. rewrite bpow_plus. change (bpow radix2 2) with 4. lra. }
-  change (2 ^ 60)%Z with 1152921504606846976%Z in E. unfold esp_mid, LONG_MIN, LONG_MAX.
+  change (2 ^ 60)%Z with 1152921504606846976%Z in *. unfold esp_mid, LONG_MIN, LONG_MAX.
   destruct E as [E|E]; lia.
 Qed.
 
@@ -186,7 +206,7 @@ Proof.
   assert (Her' : (LONG_MIN + 3000 <= esp r <= LONG_MAX - 3000)%Z).
   { change (2 ^ 60)%Z with 1152921504606846976%Z in Her. unfold LONG_MIN, LONG_MAX. lia. }
   destruct (mul_d_spec n r Hn Nr Hr0 Her') as (Nrad & Mrad & Prad & Erad).
-  destruct (cmod_spec z Nz Sz) as (Nab & Mab & Pz & Pab & Eab).
+  destruct (cmod_spec z Nz Sz) as (Nab & Mab & Pz & Pab & Eab & _).
   destruct rdpe_one_facts as (N1 & V1 & M1). destruct set_d_one_facts as (N1' & V1' & M1').
   set (one' := rdpe_set_d fone) in *.
   set (rad := rdpe_mul_d r (f_of_Z n)) in *. set (ab := cdpe_mod z) in *.
